@@ -191,7 +191,7 @@ static void sp_free(const Args &a) {
     else fatal("sp.free kind");
     ascon_xof_state_t *x = (ascon_xof_state_t *)m;
     Ev ev("sp.free"); ev.s("kind", k).n("obj", id).n("count", x->count).n("mode", x->mode);
-    if (a.num("dump_raw")) ev.b("raw", (const uint8_t *)m, o.size);
+    if (a.num("dump_raw")) ev.n("wipe", a.num("wipe")).b("raw", (const uint8_t *)m, o.size);
     ev.emit();
     obj_del(id);
 }
